@@ -3,6 +3,7 @@ package tsi1
 import (
 	"container/list"
 	"sync"
+	"sync/atomic"
 
 	"github.com/influxdata/influxdb/tsdb"
 )
@@ -25,6 +26,9 @@ type TagValueSeriesIDCache struct {
 	evictor *list.List
 
 	capacity int
+
+	// gen counts the changes made to the index's series (see changed and PutIfUnchanged).
+	gen uint64
 }
 
 // NewTagValueSeriesIDCache returns a TagValueSeriesIDCache with capacity c.
@@ -34,6 +38,22 @@ func NewTagValueSeriesIDCache(c int) *TagValueSeriesIDCache {
 		evictor:  list.New(),
 		capacity: c,
 	}
+}
+
+// generation returns the number of series changes announced so far.
+func (c *TagValueSeriesIDCache) generation() uint64 { return atomic.LoadUint64(&c.gen) }
+
+// changed announces that series were added to or removed from the index. It has to be
+// called after the change is visible to readers of the index and before the cached sets
+// are brought up to date (addToSet, delete).
+func (c *TagValueSeriesIDCache) changed() { atomic.AddUint64(&c.gen, 1) }
+
+// PutIfUnchanged is Put for a set that was computed from the index after generation() returned
+// gen: the set is only cached if no series change was announced since. A change announced
+// while the set was being computed may be missing from it, and its own update of the cached
+// sets may have run before the set gets here.
+func (c *TagValueSeriesIDCache) PutIfUnchanged(name, key, value []byte, ss *tsdb.SeriesIDSet, gen uint64) {
+	c.put(name, key, value, ss, &gen)
 }
 
 // Get returns the SeriesIDSet associated with the {name, key, value} tuple if it
@@ -96,9 +116,13 @@ func (c *TagValueSeriesIDCache) measurementContainsSets(name []byte) bool {
 // Put adds the SeriesIDSet to the cache under the tuple {name, key, value}. If
 // the cache is at its limit, then the least recently used item is evicted.
 func (c *TagValueSeriesIDCache) Put(name, key, value []byte, ss *tsdb.SeriesIDSet) {
+	c.put(name, key, value, ss, nil)
+}
+
+func (c *TagValueSeriesIDCache) put(name, key, value []byte, ss *tsdb.SeriesIDSet, gen *uint64) {
 	c.Lock()
 	// Check under the write lock if the relevant item is now in the cache.
-	if c.exists(name, key, value) {
+	if c.exists(name, key, value) || (gen != nil && atomic.LoadUint64(&c.gen) != *gen) {
 		c.Unlock()
 		return
 	}
